@@ -31,7 +31,10 @@ LEVEL_TEXT = ('Theorems for all cache contents (lists of tiles with arbitrary in
 LEVEL_NOTE = ('Streams: single tasks (all backends, bbox and polygon coverages, linked single-colour tiles, a file that another '
               'process removes during the directory walk, sqlite backends under the time zones EST5 / XXX-2 / XXX-5:30), several '
               'tasks per cleanup() call, directory cleanup with a real ProgressStore interrupted at a level boundary and continued, '
-              'levels ranges and remove_all/remove_before of the real configuration loader; tasks built by the loader from '
+              'levels ranges and remove_all/remove_before of the real configuration loader; whole cleanup entries of a seed.yaml '
+              '(2-3 caches of mixed backends in one entry, cleaned with a real progress store as mapproxy-seed --progress-file '
+              'does: every cache of the entry is held to the specification; remove_before as a time delta of several units, '
+              'tiles aged between the largest unit and the sum of the units); tasks built by the loader from '
               'mapproxy.yaml + seed.yaml (bbox, polygon and empty coverages) cleaned end to end; directories with a time of their '
               'own (a newer tile in an older directory); one schedule in which the worker needs longer for its first batch than '
               'the 5 s the walker waits for a queue slot (the retry loop of TileWorkerPool.process is not part of the model: the '
@@ -45,6 +48,7 @@ LEVEL_NOTE = ('Streams: single tasks (all backends, bbox and polygon coverages, 
               'tasks; the several-tasks stream runs 2-4 tasks on one tile manager in one cleanup() call (all backends, mixed '
               'strategies, the same level removed twice) and reports any exception of cleanup() as a property failure.')
 DESIGN_REF = 'DESIGN.md section 5, C12'
+GEN = ['Gen_seed_id.v']     # through Seed_proofs.v (C11's TileWalker model, used by seed_walk_outside_coverage_kept_partial)
 RULE = ('case = (backend, layout, grid, meta size, contents with mtimes, task levels / remove time / remove_all / coverage); '
         'non-trivial = at least one tile removed and one tile kept, or a tile within one second of the remove time; '
         'distinct by full tuple')
@@ -1497,6 +1501,38 @@ def run(ctx):
             terms.append(case_lit(case, obs))
             descr.append({'case': case, 'implementation': obs})
     ctx.corr_check('cleanup_entries', 'Cleanup', 'corr_case', terms, 'check_case %d' % Q, lambda i: descr[i], shard=60)
+    # 2h. remove_before as a time delta: seed/config.py before_timestamp_from_options = now minus the sum of all units
+    terms, descr = [], []
+    for conf in ({'days': 1, 'hours': 12}, {'weeks': 1, 'days': 2, 'minutes': 30}, {'hours': 2, 'minutes': 30, 'seconds': 15},
+                 {'minutes': 3, 'seconds': 20}, {'seconds': 90, 'minutes': 1}, {'weeks': 1, 'days': 1, 'hours': 1, 'minutes': 1, 'seconds': 1},
+                 {'weeks': 2}, {'days': 7}, {'hours': 4}, {'minutes': 15}, {'seconds': 1}, {}):
+        now = got = None
+        try:
+            from mapproxy.seed.config import before_timestamp_from_options
+            for _ in range(50):          # the call and the harness have to read the clock within the same whole second
+                t0 = time.time()
+                r = before_timestamp_from_options(dict(conf))
+                if int(t0) == int(time.time()):
+                    now, got = int(t0), int(r)
+                    break
+        except Exception as ex:
+            ctx.problem('harness', 'before_timestamp_from_options raised %r' % (ex,), {'remove_before': conf})
+            continue
+        if now is None:
+            ctx.problem('harness', 'clock could not be read within one second around before_timestamp_from_options', {'remove_before': conf})
+            continue
+        ctx.case(('delta', tuple(sorted(conf.items()))), len(conf) > 1, {'remove_before': conf, 'seconds_before_now': now - got})
+        ctx.count('delta_units=%d' % len(conf))
+        if now - got != delta_ticks(conf) // Q:
+            ctx.fail('remove-before-delta-units', 'remove_before %r gives a remove time %d s before now, expected the sum of the units = %d s '
+                     '(tiles aged between the two are %s)' % (conf, now - got, delta_ticks(conf) // Q,
+                                                              'removed although newer' if now - got < delta_ticks(conf) // Q else 'kept although older'),
+                     {'remove_before': conf, 'seconds_before_now': now - got})
+        terms.append('(%s, (%s, %s, %s, %s, %s), %s)' % (zlit(now), zlit(conf.get('weeks', 0)), zlit(conf.get('days', 0)),
+                                                         zlit(conf.get('hours', 0)), zlit(conf.get('minutes', 0)),
+                                                         zlit(conf.get('seconds', 0)), zlit(got)))
+        descr.append({'remove_before': conf, 'now': now, 'remove_time': got})
+    ctx.corr_check('remove_before_delta', 'Cleanup', 'Z * (Z * Z * Z * Z * Z) * Z', terms, 'check_delta', lambda i: descr[i])
     # 2f. names of the per-level sqlite files: which files of the directory go when one level is removed entirely
     from common import slit
     terms, descr = [], []
